@@ -38,6 +38,14 @@ def Files.restoredRes (f : Files) : List Bytes := f.dyn
 def Files.restoredObs (f : Files) : List (Nat × Bytes × Nat) :=
   (f.obs.filter (fun r => r.name ∈ f.dyn)).map fun r => (r.client, r.name, r.ver)
 
+/-- the observe loader on a context with the endpoints `eps` (`context->endpoint` order), when the session of client `c`
+came in through the endpoint `via c` (a session belongs to exactly one endpoint; its `proto` / `bind_addr` are what
+`observe_added` stores in the record): the record is re-established only if the endpoint search of
+`coap_persist_observe_add_lkd` (`findEp`) finds an endpoint for it -/
+def Files.restoredObsVia (eps : List Ep) (via : Nat → Ep) (f : Files) : List (Nat × Bytes × Nat) :=
+  (f.obs.filter (fun r => (findEp eps (via r.client).proto (via r.client).addr).isSome && decide (r.name ∈ f.dyn))).map
+    fun r => (r.client, r.name, r.ver)
+
 /-- server memory + files -/
 structure L where
   res : List Bytes
@@ -99,6 +107,10 @@ def L.restoredObs (s : L) : List (Nat × Bytes × Nat) := s.files.restoredObs
 /-- the loaders re-create exactly the abstract state `a` -/
 def RestoreEq (fl : Files) (a : Abs) : Prop :=
   (∀ n, n ∈ fl.restoredRes ↔ n ∈ a.res) ∧ (∀ c n v, (c, n, v) ∈ fl.restoredObs ↔ (c, n, v) ∈ a.obs)
+
+/-- … on a context with endpoints `eps`, sessions having come in through `via` -/
+def RestoreEqVia (eps : List Ep) (via : Nat → Ep) (fl : Files) (a : Abs) : Prop :=
+  (∀ n, n ∈ fl.restoredRes ↔ n ∈ a.res) ∧ (∀ c n v, (c, n, v) ∈ fl.restoredObsVia eps via ↔ (c, n, v) ∈ a.obs)
 
 /-! ## the Observe counter of one resource and its save file entry -/
 
